@@ -985,6 +985,13 @@ class CallMixin:
             post = [self.spec_bool(e, ls) for e in l.ensures]
             sol = z3.Solver()
             sol.set("timeout", 3000)
+            sol.set("auto_config", False)
+            sol.set("smt.mbqi", False)
+            from .engine import relevant_axioms
+            probe = Obligation(self.cur_name, "hint-pre", "x", st.pc, zand(*pre))
+            probe.reveal = tuple(getattr(self.contract_stack[0], "reveal", ()) if self.contract_stack else ()) + \
+                tuple(getattr(self, "cur_reveal", ()))
+            sol.add(*relevant_axioms(probe))
             sol.add(*st.pc)
             sol.add(z3.Not(zand(*pre)))
             if sol.check() == z3.unsat:
